@@ -295,8 +295,8 @@ func c12Run(rc *RunCtx) *Violation {
 		if r.Chance(1, 5) {
 			follow = 6 + r.Intn(8)
 		}
-		// deliverVM deliverMV honest stale inject format sequence ustart uanswer uabort
-		wt := []int{14, 14, 3, 6, 6, 3, 3, 2, 2, 1}
+		// deliverVM deliverMV honest stale inject format sequence ustart uanswer uabort fixedpoint
+		wt := []int{14, 14, 3, 6, 6, 3, 3, 2, 2, 1, 2}
 		if fly[0] == 0 {
 			wt[0] = 0
 		}
@@ -325,6 +325,8 @@ func c12Run(rc *RunCtx) *Violation {
 			return Step{K: "ustart", B: r.Intn(2)}, true
 		case 8:
 			return Step{K: "uanswer"}, true
+		case 10:
+			return Step{K: "dev", A: 6, B: r.Intn(3)}, true
 		default:
 			return Step{K: "uabort"}, true
 		}
@@ -355,6 +357,47 @@ func c12Run(rc *RunCtx) *Violation {
 			r := v.SMPAbort()
 			w.Enqueue(v, r)
 		case "dev":
+			if s.A == 6 {
+				// proofs that are fixed points for degenerate elements: with Pb = Qb = 0 the value
+				// cP = H(5, 0, 0) verifies for any D5, D6 (and likewise Pa = Qa = 0 with H(6, 0, 0))
+				collect()
+				if len(pending) == 0 && w.InFlight(0, 1) == 0 {
+					// let the victim's user start a run, so that there is a message 1 to answer
+					rs := v.SMPStart("", secretV)
+					w.Enqueue(v, rs)
+				}
+				for w.InFlight(0, 1) > 0 {
+					w.Deliver(w.Take(0, 1, 0))
+				}
+				if t, k := next(m.Rand, false); t != nil {
+					if _, mp, ok := mpisOf(t.Value); ok {
+						zero := big.NewInt(0)
+						one := big.NewInt(1)
+						el := []*big.Int{zero, one, new(big.Int).Sub(refotr.P, one)}[s.B%3]
+						switch {
+						case k == "smp2" && len(mp) == 11:
+							mp[6], mp[7] = el, el
+							mp[8] = refotr.SMPHash(5, new(big.Int).Exp(el, big.NewInt(2), refotr.P), new(big.Int).Exp(el, big.NewInt(2), refotr.P))
+							if el.Sign() == 0 {
+								mp[8] = refotr.SMPHash(5, zero, zero)
+							}
+						case k == "smp3" && len(mp) == 8:
+							mp[0], mp[1] = el, el
+							if el.Sign() == 0 {
+								mp[2] = refotr.SMPHash(6, zero, zero)
+							}
+						}
+						t.Value = smpValue(mp)
+						rc.Probe("fixedpoint:" + k)
+						sendTLV(*t, fmt.Sprintf("fixedpoint %s elements=%s", k, el.String()[:1]))
+					}
+				}
+				kinds += "dv6"
+				if viol != nil {
+					return viol
+				}
+				continue
+			}
 			if s.A%6 == 5 {
 				// insider deviations that leave all proofs valid: surplus elements, exponents plus a multiple of q
 				if t, k := next(m.Rand, false); t != nil {
